@@ -9,7 +9,7 @@ namespace Driver.C13
 open ThermoVerif.Links Driver
 
 structure St where
-  w : World := World.init
+  vw : VWorld := VWorld.init
   dead : Bool := false
 
 def parsePh : String → Option Ph
@@ -35,9 +35,20 @@ def parseFlows (t : String) : Option (List FlowSpec) :=
 def parseBool : String → Option Bool
   | "0" => some false | "1" => some true | _ => none
 
-def parseOp (line : String) : Option Op :=
+def parseOp0 (line : String) : Option Op :=
   match splitWs line with
-  | ["new", k, sid, pkg, phases, flows, T, P, price, cf] => do
+  | "new" :: k :: sid :: pkg :: phases :: flows :: T :: P :: price :: cf :: extras => do
+    -- optional: `u:<m|k>:<factor>` (mass / molar units), `t:<total_flow>`, `mw:<cas:MW,...>`
+    let units ← extras.foldlM (fun (acc : Option (Bool × Rat)) tok =>
+      match splitOn1 tok ':' with
+      | ["u", b, f] => do some (some (b == "m", (← parseRat? f)))
+      | _ => some acc) none
+    let total ← extras.foldlM (fun (acc : Option Rat) tok =>
+      match splitOn1 tok ':' with
+      | ["t", v] => do some (some (← parseRat? v))
+      | _ => some acc) none
+    let mws ← extras.foldlM (fun (acc : List (Nat × Rat)) tok =>
+      if tok.startsWith "mw:" then parsePairs (tok.drop 3).toString else some acc) []
     let multi ← (match k with | "S" => some false | "M" => some true | _ => none)
     let sid ← (if sid == "-" then some none else sid.toNat?.map some)
     let (pid, pkg) ← (match splitOn1 pkg '=' with
@@ -45,7 +56,8 @@ def parseOp (line : String) : Option Op :=
       | _ => none)
     some (.new { multi := multi, sid := sid, pkg := pkg, pkgId := pid, phases := (← parsePhs phases),
                  flows := (← parseFlows flows), T := (← parseRat? T), P := (← parseRat? P),
-                 price := (← parseRat? price), cf := (← parsePairs cf) })
+                 price := (← parseRat? price), cf := (← parsePairs cf), units := units, total := total,
+                 mw := fun c => (mws.lookup c).getD 1 })
   | ["setflow", s, p, c, v] => do some (.setFlow (← s.toNat?) (← parsePh p) (← c.toNat?) (← parseRat? v))
   | ["setT", s, v] => do some (.setT (← s.toNat?) (← parseRat? v))
   | ["setP", s, v] => do some (.setP (← s.toNat?) (← parseRat? v))
@@ -70,6 +82,11 @@ def parseOp (line : String) : Option Op :=
   | _ => none
 
 /-- insertion sort of naturals (packages are tiny) -/
+def parseOp (line : String) : Option VOp :=
+  match splitWs line with
+  | ["view", i, p] => do some (.view (← i.toNat?) (← parsePh p))
+  | _ => (parseOp0 line).map VOp.op
+
 def sortNat (l : List Nat) : List Nat :=
   l.foldl (fun acc x => (acc.takeWhile (· < x)) ++ [x] ++ (acc.dropWhile (· < x))) []
 
@@ -89,7 +106,8 @@ def canon (seen : List Nat) (x : Nat) : List Nat × Nat :=
 def canonAll (seen : List Nat) (xs : List Nat) : List Nat × List Nat :=
   xs.foldl (fun (sn, out) x => let (sn', i) := canon sn x; (sn', out ++ [i])) (seen, [])
 
-def showStream (w : World) (seen : List Nat) (i : Nat) : List Nat × String :=
+def showStream (vw : VWorld) (seen : List Nat) (i : Nat) : List Nat × String :=
+  let w := vw.w
   let s := w.strs i
   let phases := w.phasesOf s.imol
   let rows := w.rowIdsOf s.imol
@@ -104,21 +122,96 @@ def showStream (w : World) (seen : List Nat) (i : Nat) : List Nat × String :=
   let sid := match s.sid with | some n => toString n | none => "-"
   -- phases and rows may differ in number only in states outside the domain; print both counts then
   let extra := if phases.length == rows.length then "" else s!"!{phases.length}/{rows.length}"
+  -- the views handed out, by phase: (row object, thermal condition) they are bound to
+  let vs := Ph.all.filterMap fun p => ((vw.vdict i).lookup p).map fun b => (p, b)
+  let (seen, vparts) := vs.foldl (fun (sn, acc) (p, r, t) =>
+    let (sn1, a) := canon sn r
+    let (sn2, b) := canon sn1 t
+    (sn2, acc ++ [s!"{p.toString}:{a}.{b}"])) (seen, [])
   (seen, s!"{i}={kind};{body}{extra};{showRat tc.1};{showRat tc.2};{showRat s.price};" ++
-         "{" ++ showCf (w.cfs s.cf) ++ "}" ++ s!";{sid};@{joinWith "." (ids.map toString)}")
+         "{" ++ showCf (w.cfs s.cf) ++ "}" ++ s!";{sid};@{joinWith "." (ids.map toString)};v[{joinWith "," vparts}]")
 
-def showWorld (w : World) : String :=
-  let (_, parts) := (List.range w.nS).foldl
-    (fun (seen, acc) i => let (sn, t) := showStream w seen i; (sn, acc ++ [t])) ([], [])
+def showWorld (vw : VWorld) : String :=
+  let (_, parts) := (List.range vw.w.nS).foldl
+    (fun (seen, acc) i => let (sn, t) := showStream vw seen i; (sn, acc ++ [t])) ([], [])
   joinWith " " parts
+
+/-- `pslots <s|c> <n> <k:tok,...>`: slot-wise pickling. Mode `s`: default / cucumber pickling of a slotted object
+(`tok` a number; unset slots are not listed).  Mode `c`: `Chemical.__reduce__` (`tok` a number or `n` for None). -/
+def stepPSlots (mode n items : String) : String :=
+  match n.toNat? with
+  | none => "bad-op"
+  | some n =>
+    let entries := if items == "-" then [] else splitComma items
+    let parsed : Option (List (Nat × Option Nat)) := entries.mapM fun kv =>
+      match splitOn1 kv ':' with
+      | [k, v] => do
+        let k ← k.toNat?
+        if v == "n" then some (k, none) else do some (k, some (← v.toNat?))
+      | _ => none
+    match parsed with
+    | none => "bad-op"
+    | some l =>
+      let slots := List.range n
+      if mode == "c" then
+        let obj : Nat → Option (Option Nat) := fun k => l.lookup k
+        let re := chemFromData (chemGetData slots obj)
+        "ok " ++ joinWith "," (slots.map fun k => match observeD re k with | some v => s!"{k}:{v}" | none => s!"{k}:n")
+      else
+        let obj : Nat → Option Nat := fun k => (l.lookup k).join
+        let re := newFromState (getState slots obj)
+        "ok " ++ joinWith "," (slots.map fun k => match re k with | some v => s!"{k}:{v}" | none => s!"{k}:-")
+
+/-- `pchems <cas=name|name;...> <group=cas|cas;...|-> <key,key,...>`: `CompiledChemicals` round trip, then the
+position(s) every key is looked up to -/
+def stepPChems (chems groups keys : String) : String :=
+  let pc : Option (List (Nat × List Nat)) := (splitOn1 chems ';').mapM fun e =>
+    match splitOn1 e '=' with
+    | [c, names] => do some ((← c.toNat?), (← (splitOn1 names '|').mapM (·.toNat?)))
+    | _ => none
+  let pg : Option (List (Nat × List Nat × List Rat)) :=
+    if groups == "-" then some [] else (splitOn1 groups ';').mapM fun e =>
+      match splitOn1 e '=' with
+      | [g, members] => do some ((← g.toNat?), (← (splitOn1 members '|').mapM (·.toNat?)), [])
+      | _ => none
+  match pc, pg, (splitComma keys).mapM (·.toNat?) with
+  | some c, some g, some ks =>
+    let x : CChems := ⟨c, g⟩
+    let y := CChems.rebuild x.pickleArgs
+    "ok " ++ joinWith "," (ks.map fun k => match y.index k with
+      | some l => s!"{k}:{joinWith "|" (l.map toString)}"
+      | none => s!"{k}:-")
+  | _, _, _ => "bad-op"
+
+/-- `fromstreams i,j,...` (`MultiStream.from_streams`): the last operation of a case -/
+def stepFromStreams (st : St) (t : String) : St × String :=
+  match parseNats t with
+  | none => ({ st with dead := true }, "bad-op")
+  | some l =>
+    if !(l.all (· < st.vw.w.nS)) then ({ st with dead := true }, "err=BadStream") else
+    -- one property package is a precondition of `from_streams`
+    if l.any (fun j => (st.vw.w.strs j).pkgId != (st.vw.w.strs (l.headD 0)).pkgId) then (st, "skip") else
+    match st.vw.w.fromStreams l with
+    | .error e => ({ st with dead := true }, "err=" ++ e.toString)
+    | .ok (w', i) =>
+      -- the given streams are the phase views of the new stream
+      let views := l.map fun j =>
+        ((w'.phasesOf (w'.strs j).imol).headD .l, (w'.rowIdsOf (w'.strs j).imol).headD 0, (w'.strs j).tc)
+      let vw' : VWorld := ⟨w', upd st.vw.vdict i views⟩
+      ({ vw := vw', dead := true }, "ok " ++ showWorld vw')
 
 def step (st : St) (line : String) : St × String :=
   if st.dead then (st, "dead") else
+  if line.startsWith "fromstreams " then stepFromStreams st (line.drop 12).toString else
+  match splitWs line with
+  | ["pslots", mode, n, items] => (st, stepPSlots mode n items)
+  | ["pchems", chems, groups, keys] => (st, stepPChems chems groups keys)
+  | _ =>
   match parseOp line with
   | none => ({ st with dead := true }, "bad-op")
   | some op =>
-    match st.w.step op with
-    | .ok w' => ({ st with w := w' }, "ok " ++ showWorld w')
+    match st.vw.step op with
+    | .ok vw' => ({ st with vw := vw' }, "ok " ++ showWorld vw')
     | .skip => (st, "skip")
     | .err e => ({ st with dead := true }, "err=" ++ e.toString)
 
